@@ -540,86 +540,124 @@ def run(ctx):
 PROG_FUNCS = ["a", "b", "g", "h"]
 
 
-def gen_program(rng):
-    """A small Python program over functions a,b,g,h (+ os.getpid, len) that logs
-    its own ground-truth call tree is not needed: the call structure is static, so
-    the expected tree is computed from the same description."""
-    # body description: list of calls per function; acyclic: a -> b,g,h ; b -> g,h ; g -> h
+def gen_program(rng, exit_mode):
+    """A Python program over a,b,g,h (acyclic calls) using C functions, a caught
+    exception, a generator, recursion, a method and a closure."""
     order = {"a": ["b", "g", "h"], "b": ["g", "h"], "g": ["h"], "h": []}
-    bodies = {}
-    for f in PROG_FUNCS:
-        calls = []
-        for _ in range(rng.randint(0, 3)):
-            cand = order[f] + ["os.getpid", "len", "raise"]
-            calls.append(rng.choice(cand))
-        bodies[f] = calls
-    top = [rng.choice(PROG_FUNCS) for _ in range(rng.randint(1, 3))]
-    return bodies, top
-
-
-def program_text(bodies, top, exit_mode):
-    src = ["#!/usr/bin/env python3", "import os", "import sys", ""]
-    src += ["def thrower():", "    raise ValueError('x')", ""]
+    src = ["#!/usr/bin/env python3", "import os", "import sys", "import json", "",
+           "def thrower():", "    raise ValueError('x')", "",
+           "def gen():", "    yield 1", "    yield 2", "",
+           "def rec(n):", "    if n > 0:", "        rec(n - 1)", "    return os.getpid()", "",
+           "class K:", "    def m(self):", "        return len('ab')", "",
+           "def outer():", "    def inner():", "        return 1", "    return inner()", ""]
     for f in PROG_FUNCS:
         src.append("def %s():" % f)
         body = []
-        for c in bodies[f]:
+        for _ in range(rng.randint(0, 4)):
+            c = rng.choice(order[f] + ["os.getpid", "len", "raise", "gen", "rec", "meth", "closure", "json",
+                                       "cexc", "sorted"])
             if c == "os.getpid":
                 body.append("    os.getpid()")
             elif c == "len":
                 body.append("    len('abc')")
             elif c == "raise":
                 body += ["    try:", "        thrower()", "    except ValueError:", "        pass"]
+            elif c == "gen":
+                body += ["    for _ in gen():", "        pass"]
+            elif c == "rec":
+                body.append("    rec(%d)" % rng.randint(0, 3))
+            elif c == "meth":
+                body.append("    K().m()")
+            elif c == "closure":
+                body.append("    outer()")
+            elif c == "json":
+                body.append("    json.dumps([1, 2])")
+            elif c == "cexc":
+                body += ["    try:", "        int('zz')", "    except ValueError:", "        pass"]
+            elif c == "sorted":
+                body.append("    sorted([2, 1], key=lambda v: len(str(v)))")
             else:
                 body.append("    %s()" % c)
         src += body or ["    pass"]
         src.append("")
-    for t in top:
-        src.append("%s()" % t)
+    for _ in range(rng.randint(1, 3)):
+        src.append("%s()" % rng.choice(PROG_FUNCS))
     src.append("print('done')")
     if exit_mode == "sys.exit":
         src.append("sys.exit(3)")
     elif exit_mode == "os._exit":
         src += ["sys.stdout.flush()", "os._exit(4)"]
+    elif exit_mode == "raise":
+        src.append("thrower()")
     return "\n".join(src) + "\n"
 
 
-def program_forest(bodies, top, exit_mode):
-    def node(f):
-        kids = []
-        for c in bodies[f]:
-            if c == "os.getpid":
-                kids.append(("posix.getpid", "c", []))
-            elif c == "len":
-                kids.append(("builtins.len", "c", []))
-            elif c == "raise":
-                kids.append(("thrower", "p", []))
-            else:
-                kids.append(node(c))
-        return (f, "p", kids)
-    kids = [node(t) for t in top]
-    kids.append(("builtins.print", "c", []))
-    return [("__main__.<module>", "p", kids)]
-
-
 def replay_to_ops(text):
-    """uftrace replay -F-less output -> list of names / None (exit), by indentation"""
+    """`uftrace replay -f none` -> list of names / None (exit)"""
     ops = []
-    stack = []
     for l in text.split("\n"):
-        if "|" not in l or l.startswith("#"):
+        b = l.strip()
+        if b.startswith("uftrace stopped tracing"):
+            break
+        if not b or b.startswith("#"):
             continue
-        body = l.split("|", 1)[1]
-        ind = (len(body) - len(body.lstrip(" ")) - 1) // 2
-        body = body.strip()
-        if body.startswith("}"):
+        if b.startswith("}"):
             ops.append(None)
-        elif body.endswith("{"):
-            ops.append(body[:-1].strip().rstrip("()").rstrip("("))
-        elif body.endswith(";"):
-            ops.append(body[:-1].strip()[:-2] if body[:-1].strip().endswith("()") else body[:-1].strip())
+        elif b.endswith("{"):
+            ops.append(b[:-1].strip()[:-2])
+        elif b.endswith(";"):
+            ops.append(b[:-1].strip()[:-2])
             ops.append(None)
     return ops
+
+
+def read_log(path):
+    evs, libs = [], set()
+    for l in open(path):
+        t = l.split()
+        if not t:
+            continue
+        evs.append(t[0])
+        if len(t) > 1 and t[1] == "L":
+            libs.add(t[0][2:])
+    return evs, libs
+
+
+def expected_ops(evs, libs, mode, filters, fixed_code):
+    """Ground-truth events -> the hook calls the documented selection asks for.
+    Returns (ops, cut) ; cut = True when the program stopped inside calls."""
+    # an uncaught exception / sys.exit: the returns of the frames that were
+    # entered before tracing started (runpy) follow; they are not calls of the program
+    names = []
+    keep = []
+    for e in evs:
+        t, name = e[0], e[2:]
+        if t in "cC":
+            names.append(name)
+            keep.append(e)
+        elif names and names[-1] == name:
+            names.pop()
+            keep.append(e)
+        # else: stray return, dropped by libmcount ("unpaired cygprof exit")
+    cut = bool(names)
+    # close what os._exit left open to get a tree
+    closed = list(keep) + ["r:" + n for n in reversed(names)]
+    forest = tree_of_loose(closed)
+    want = doc_selection(forest, mode, filters, libs)
+    return want, cut, len(names)
+
+
+def tree_of_loose(evs):
+    stack = [[]]
+    for e in evs:
+        t, name = e[0], e[2:]
+        if t in "cC":
+            node = (name, "p" if t == "c" else "c", [])
+            stack[-1].append(node)
+            stack.append(node[2])
+        else:
+            stack.pop()
+    return stack[0]
 
 
 def run_e2e(ctx):
@@ -633,20 +671,29 @@ def run_e2e(ctx):
     os.makedirs(wd, exist_ok=True)
     env = dict(os.environ)
     env["PYTHONPATH"] = os.path.join(ctx.src, "python")
-    nprog = 24
-    runs = fails = known_hits = 0
+    nprog = 20
+    runs = fails = known_hits = stray_warn = 0
     f = f2_open()
+    filter_opts = [[], ["-F", "a"], ["-N", "g"], ["-F", "a", "-N", "g"], ["-F", "b", "-N", "h"],
+                   ["-N", "thrower"], ["-F", "g"], ["-N", "^json"], ["-F", "rec", "-N", ".getpid"],
+                   ["-F", "^K"], ["-N", "gen", "-N", "builtins.len"]]
     for pi in range(nprog):
-        bodies, top = gen_program(rng)
-        exit_mode = rng.choice(["none", "none", "sys.exit", "os._exit"])
+        exit_mode = rng.choice(["none", "none", "none", "sys.exit", "os._exit", "raise"])
         path = os.path.join(wd, "p%d.py" % pi)
-        open(path, "w").write(program_text(bodies, top, exit_mode))
+        open(path, "w").write(gen_program(rng, exit_mode))
         os.chmod(path, 0o755)
-        base = subprocess.run([path], stdout=subprocess.PIPE, stderr=subprocess.PIPE, text=True, timeout=60, env=env)
-        forest = program_forest(bodies, top, exit_mode)
+        base = subprocess.run(["timeout", "60", path], stdout=subprocess.PIPE, stderr=subprocess.PIPE,
+                              text=True, env=env, cwd=wd)
+        logf = os.path.join(wd, "p%d.log" % pi)
+        lenv = dict(env)
+        lenv["C19_LOG"] = logf
+        lenv["PYTHONPATH"] = os.path.join(C.VERIF, "harness")
+        # started like uftrace.py is (`python3 -m …`), so that the frames below exec() are the same
+        subprocess.run(["timeout", "60", "python3", "-m", "c19_pylog", path],
+                       stdout=subprocess.PIPE, stderr=subprocess.PIPE, text=True, env=lenv, cwd=wd)
+        evs, libs = read_log(logf)
         for mode, mopt in (("SINGLE", []), ("NONE", ["--no-libcall"]), ("NESTED", ["--nest-libcall"])):
-            for filt in rng.sample([[], ["-F", "a"], ["-N", "g"], ["-F", "a", "-N", "g"], ["-F", "b", "-N", "h"],
-                                    ["-N", "thrower"], ["-F", "g"]], 2):
+            for filt in rng.sample(filter_opts, 2):
                 d = os.path.join(wd, "d%d" % runs)
                 cmd = ["timeout", "60", uft, "record", "--libmcount-path=" + os.path.join(ctx.src, "libmcount"),
                        "--no-event", "--no-pager", "-d", d] + mopt + filt + [path]
@@ -656,26 +703,26 @@ def run_e2e(ctx):
                                     stdout=subprocess.PIPE, stderr=subprocess.PIPE, text=True, env=env)
                 got = replay_to_ops(rp.stdout)
                 ents = []
-                i = 0
-                while i < len(filt):
-                    ents.append(("simple" if not any(ch in REGEX_CHARS for ch in filt[i + 1]) else "regex",
+                for i in range(0, len(filt), 2):
+                    ents.append(("regex" if any(ch in REGEX_CHARS for ch in filt[i + 1]) else "simple",
                                  filt[i + 1], "in" if filt[i] == "-F" else "out"))
-                    i += 2
-                libs = ["posix.getpid", "builtins.len", "builtins.print"]
-                want = doc_selection(forest, mode, ents or None, libs)
-                if exit_mode == "os._exit":
-                    # the run is cut inside <module>: compare up to the cut (the hook itself is a lib call)
-                    want = [w for w in want]
-                    while want and want[-1] is None:
-                        want.pop()
-                    got2 = [g for g in got]
-                    while got2 and got2[-1] is None:
-                        got2.pop()
-                    # os._exit is replaced by a python wrapper (uftrace.py): drop what it adds
-                    same = got2[:len(want)] == want
+                want, cut, nopen = expected_ops(evs, libs, mode, ents or None, True)
+                if cut:
+                    # stopped by os._exit: the closers of the open calls are never recorded, and the
+                    # hook (os_exit -> uftrace_python.exit) is part of uftrace, not of the program
+                    drop = ("os_exit", "uftrace_python.exit")
+                    w = [x for x in want if x not in drop]
+                    g = [x for x in got if x not in drop]
+                    while w and w[-1] is None:
+                        w.pop()
+                    while g and g[-1] is None:
+                        g.pop()
+                    same = g == w
                 else:
                     same = got == want
-                same_out = (r.stdout.replace("\r", "") == base.stdout and r.returncode == base.returncode)
+                if "unpaired cygprof exit" in r.stderr:
+                    stray_warn += 1
+                same_out = (r.stdout == base.stdout and (r.returncode == 0) == (base.returncode == 0))
                 if not same or not same_out:
                     mixed = ("-F" in filt and "-N" in filt)
                     if mixed and f is not None and same_out:
@@ -688,9 +735,10 @@ def run_e2e(ctx):
                             "options": mopt + filt, "replay": rp.stdout[-1500:], "expected": fmt_ops(want),
                             "got": fmt_ops(got), "stdout_same": same_out, "record_rc": r.returncode,
                             "untraced_rc": base.returncode, "record_stderr": r.stderr[-500:],
-                            "theorem": "c19_refines_doc (end to end)"}, no_failing_input=False)
+                            "exit_mode": exit_mode,
+                            "theorem": "c19_refines_doc / c19_balanced_output (end to end)"})
     return {"built": True, "programs": nprog, "record_runs": runs, "failures": fails,
-            "known_F2_shapes": known_hits}
+            "known_F2_shapes": known_hits, "runs_with_unpaired_exit_warning": stray_warn}
 
 
 def replay(ctx, path):
